@@ -6,7 +6,7 @@ for d in seeded/*/; do
   s=$(basename $d)
   if [ $# -gt 0 ]; then ok=0; for p in "$@"; do case $s in $p*) ok=1;; esac; done; [ $ok = 1 ] || continue; fi
   prop=$(python3 -c "import json,sys;print(json.load(open('$d/meta.json'))['breaks_property'])")
-  git -C /repo apply "$d/patch.diff" || { echo "$s: patch does not apply"; continue; }
+  git -C /repo apply "$PWD/${d}patch.diff" || { echo "$s: patch does not apply"; continue; }
   t0=$(date +%s)
   ./check $prop > build/reg_$s.out 2> build/reg_$s.err; rc=$?
   git -C /repo checkout -- .
